@@ -40,10 +40,17 @@ func shardUnits(name string, bound, n int) []string {
 	return us
 }
 
+func init() {
+	vsched.OnRun = fw.Alive
+}
+
 // runSched explores a scenario shard and converts the statistics.
 // The first line of a problem string is its class (fingerprint); details follow.
 func runSched(prop string, sc *explore.Scenario, sp schedSpec, env *fw.Env, wantOutcomes int) *fw.Result {
 	res := fw.NewResult()
+	explore.Beat = func(name string, prefix []int) {
+		fw.Beat(func() string { return fmt.Sprintf("scenario %s schedule prefix %v", name, prefix) })
+	}
 	st := explore.Explore(sc, explore.Options{Bound: sp.Bound, Cache: true, Deadline: env.Deadline, Shard: sp.Shard, NShards: sp.NShards})
 	res.Evaluations = st.Executions
 	res.Traces = st.Complete
